@@ -10,6 +10,8 @@ C07_TAGS = {"request_never_answered", "answer_without_request", "in_flight_never
 C14_TAGS = {"link_down_notice", "link_down_count", "conn_view"}
 # an account event that comes back in the name of another exchange than the one the request was addressed to
 C04_TAGS = {"wrong_exchange"}
+# the System API hands exactly the commands it was given to the engine, in order (cancel-orders / close-positions with their filter)
+C19_TAGS = {"command_fidelity"}
 
 
 def run(ctx, own_tags, runs=None, fresh=False):
@@ -31,11 +33,13 @@ def run(ctx, own_tags, runs=None, fresh=False):
                 ff.write(json.dumps(l) + "\n")
     rp = {"kind": "system", "seed": ctx.seed}
     if own_tags:
-        lines = ctx.read_trace(merged)
+        # (an anomaly that belongs to another property's verdict is not this check's business)
+        lines = [l for l in ctx.read_trace(merged) if not (l.get("a") == "Anomaly" and l.get("tag") and l["tag"] not in own_tags)]
         clean = ctx.path("clean_system.ndjson")
         found, keep = ctx.screen_anomalies(lines, clean, lambda l: l.get("anomaly"))
         for n, d, seg in found:
-            ctx.violation("composition:anomaly", "real system run: %s [line %d]" % (d, n), dict(rp, run=seg[0].get("run")))
+            tag = lines[n - 1].get("tag")
+            ctx.violation("composition:anomaly" + (":" + tag if tag else ""), "real system run: %s [line %d]" % (d, n), dict(rp, run=seg[0].get("run")))
         n, bad, _ = ctx.tlc_trace("Trace_BarterSystem", "Trace_BarterSystem.cfg", clean)
         foreign = 0
         for b in bad:
